@@ -2599,4 +2599,151 @@ end VmcOverSec
 
 end Adv1
 
+/-! ## Seed round I: the counter's name is ONE key, whatever string it is
+
+"... together with the context of the last filled value (extended only by the element's own documented keys)":
+`Count` documents the key `{self.name: self.count}`.  The `count_*` theorems above hold for every `cfg.name` (no
+hypothesis about the string: dots, blanks, the empty string, a key of the context).  Here the same on contexts with
+nested dictionaries, and what the string form of `update_recursively` does instead (seed C09-I). -/
+section SeedI
+
+/-- `d.update({name: v})` on a context with nested dictionaries, for EVERY string `name`: the key `name` is bound
+to `v`, and every other key keeps its binding (a nested dictionary as a whole). -/
+theorem NCtx.lookup_set (c : NCtx) (k : String) (v : NVal) (k' : String) :
+    (c.set k v).lookup k' = if k' = k then some v else c.lookup k' := by
+  induction c with
+  | nil =>
+    by_cases h : k' = k
+    · simp [NCtx.set, NCtx.lookup, h]
+    · have h' : ¬ k = k' := fun e => h e.symm
+      simp [NCtx.set, NCtx.lookup, h, h']
+  | cons kv rest ih =>
+    obtain ⟨k₀, v₀⟩ := kv
+    by_cases h0 : k₀ = k
+    · subst h0
+      by_cases h : k' = k₀
+      · simp [NCtx.set, NCtx.lookup, h]
+      · have h' : ¬ k₀ = k' := fun e => h e.symm
+        simp [NCtx.set, NCtx.lookup, h, h']
+    · by_cases h : k₀ = k'
+      · subst h
+        simp [NCtx.set, NCtx.lookup, h0]
+      · simp [NCtx.set, NCtx.lookup, h0, h, ih]
+
+theorem nctx_set_own_key_only (c : NCtx) (name : String) (v : NVal) :
+    (c.set name v).lookup name = some v ∧ ∀ k, k ≠ name → (c.set name v).lookup k = c.lookup k := by
+  refine ⟨by simp [NCtx.lookup_set], ?_⟩
+  intro k hk
+  simp [NCtx.lookup_set, hk]
+
+/-- the flat contexts of the element models are the nested ones whose values are leaves: `Ctx.set` (what the model of
+`Count` does with its name) is `NCtx.set` -/
+theorem Ctx.toN_set (c : Ctx) (k : String) (v : Leaf) : (c.set k v).toN = c.toN.set k (.leaf v) := by
+  induction c with
+  | nil => simp [Ctx.set, Ctx.toN, NCtx.set]
+  | cons kv rest ih =>
+    obtain ⟨k₀, v₀⟩ := kv
+    by_cases h0 : k₀ = k
+    · simp [Ctx.set, Ctx.toN, NCtx.set, h0]
+    · simpa [Ctx.set, Ctx.toN, NCtx.set, h0] using ih
+
+/-- the context `Count.compute` yields, as a nested context, for EVERY name and fill sequence: the last filled context
+with the one key `name` bound to the counter, every other key untouched -/
+theorem count_compute_name_one_key (cfg : CountCfg) (vs : List (Item δ)) :
+    ∃ d c, ((countM δ cfg).compute ((countM δ cfg).fillAll (countM δ cfg).init vs)).2 = .ok [⟨d, some c⟩]
+      ∧ c.toN = (ctxAfter [] vs).toN.set cfg.name (.leaf (some (cfg.count0 + vs.length)))
+      ∧ c.toN.lookup cfg.name = some (.leaf (some (cfg.count0 + vs.length)))
+      ∧ ∀ k, k ≠ cfg.name → c.toN.lookup k = (ctxAfter [] vs).toN.lookup k := by
+  refine ⟨_, _, count_compute_spec cfg vs, Ctx.toN_set _ _ _, ?_, ?_⟩
+  · rw [Ctx.toN_set]; exact (nctx_set_own_key_only _ _ _).1
+  · intro k hk; rw [Ctx.toN_set]; exact (nctx_set_own_key_only _ _ _).2 k hk
+
+/-- a name without a dot: the path update IS `d.update({name: v})` (why a `Count` that uses `update_recursively` passes
+every test with plain names) -/
+theorem nctx_setPath_single (c : NCtx) (k : String) (v : Leaf) : c.setPath [k] v = c.set k (.leaf v) := rfl
+
+/-- a path of two or more components (a name with a dot) binds its FIRST component to a dictionary and touches no
+other key: the documented key - the name itself, a string different from its first component - is not added, and
+whatever the context held under the first component (a leaf, say) is replaced -/
+theorem nctx_setPath_dotted (c : NCtx) (k k2 : String) (ks : List String) (v : Leaf) :
+    (∃ sub, (c.setPath (k :: k2 :: ks) v).lookup k = some (.dict sub))
+    ∧ ∀ name, name ≠ k → (c.setPath (k :: k2 :: ks) v).lookup name = c.lookup name := by
+  constructor
+  · cases h : c.lookup k with
+    | none => exact ⟨NCtx.setPath [] (k2 :: ks) v, by simp [NCtx.setPath, h, NCtx.lookup_set]⟩
+    | some x =>
+      cases x with
+      | leaf l => exact ⟨NCtx.setPath [] (k2 :: ks) v, by simp [NCtx.setPath, h, NCtx.lookup_set]⟩
+      | dict sub => exact ⟨NCtx.setPath sub (k2 :: ks) v, by simp [NCtx.setPath, h, NCtx.lookup_set]⟩
+  · intro name hn
+    cases h : c.lookup k with
+    | none => simp [NCtx.setPath, h, NCtx.lookup_set, hn]
+    | some x =>
+      cases x with
+      | leaf l => simp [NCtx.setPath, h, NCtx.lookup_set, hn]
+      | dict sub => simp [NCtx.setPath, h, NCtx.lookup_set, hn]
+
+/-- hence a path update never agrees with the documented `{name: v}` on a context that lacks the key `name`, when the
+name differs from its first path component (every dotted name): machine-checked counterexample to seed C09-I -/
+theorem nctx_setPath_not_update (c : NCtx) (name k k2 : String) (ks : List String) (v : Leaf)
+    (hn : name ≠ k) (habs : c.lookup name = none) :
+    c.setPath (k :: k2 :: ks) v ≠ c.set name (.leaf v) := by
+  intro e
+  have h1 := (nctx_setPath_dotted c k k2 ks v).2 name hn
+  rw [e, (nctx_set_own_key_only c name (.leaf v)).1, habs] at h1
+  cases h1
+
+/-- `Count("events.selected")` after a value with context `{"events": 7}`: the documented context keeps `events` and
+has the key `events.selected`; the path update has no such key and has replaced the 7 -/
+example :
+    let c : NCtx := [("events", .leaf (some 7))]
+    (c.set "events.selected" (.leaf (some 1))).lookup "events" = some (.leaf (some 7))
+    ∧ (c.set "events.selected" (.leaf (some 1))).lookup "events.selected" = some (.leaf (some 1))
+    ∧ (c.setPath ["events", "selected"] (some 1)).lookup "events.selected" = none
+    ∧ (c.setPath ["events", "selected"] (some 1)).lookup "events" = some (.dict [("selected", .leaf (some 1))]) := by
+  simp [NCtx.set, NCtx.lookup, NCtx.setPath]
+
+example : NCtx.setPath [("events", NVal.leaf (some 7))] ["events", "selected"] (some 1)
+    ≠ NCtx.set [("events", NVal.leaf (some 7))] "events.selected" (NVal.leaf (some 1)) :=
+  nctx_setPath_not_update _ _ _ _ _ _ (by decide) (by simp [NCtx.lookup])
+
+/-! ### Vectorize: "the longest output is yielded (the others are padded with None)" (seed C09-G)
+
+Components of a `Vectorize([seq₀, seq₁, …])` may yield different numbers of values (`Sum()` one, `StoreFilled(False)`
+one per fill).  No result of a longer component is dropped. -/
+
+theorem foldl_max_length_ge {α : Type} (ls : List (List α)) (n : Nat) :
+    n ≤ ls.foldl (fun n l => max n l.length) n ∧ ∀ l ∈ ls, l.length ≤ ls.foldl (fun n l => max n l.length) n := by
+  induction ls generalizing n with
+  | nil => simp
+  | cons a rest ih =>
+    have h := ih (max n a.length)
+    refine ⟨by simp only [List.foldl_cons]; omega, ?_⟩
+    intro l hl
+    simp only [List.foldl_cons]
+    rcases List.mem_cons.mp hl with rfl | hl
+    · omega
+    · exact h.2 l hl
+
+/-- as many tuples as the longest component yields values -/
+theorem zipLongest_length_ge {α : Type} (ls : List (List α)) (l : List α) (h : l ∈ ls) :
+    l.length ≤ (zipLongest ls).length := by
+  simp only [zipLongest, List.length_map, List.length_range]
+  exact (foldl_max_length_ge ls 0).2 l h
+
+/-- every value of every component is in the output, at its place: value `i` of component `j` is component `j` of
+tuple `i` (so a `zip` that stops at the shortest component is not what the model - and the documentation - says) -/
+theorem zipLongest_keeps_all {α : Type} (ls : List (List α)) (j : Nat) (hj : j < ls.length) (i : Nat)
+    (hi : i < ls[j].length) :
+    ∃ row, (zipLongest ls)[i]? = some row ∧ row[j]? = some (some ls[j][i]) := by
+  have hlen : i < (zipLongest ls).length :=
+    Nat.lt_of_lt_of_le hi (zipLongest_length_ge ls ls[j] (List.getElem_mem hj))
+  refine ⟨(zipLongest ls)[i], by simp [hlen], ?_⟩
+  rw [zipLongest_row ls i hlen]
+  simp [hj, hi]
+
+example : zipLongest [[6], [10, 20, 30]] = [[some 6, some 10], [none, some 20], [none, some 30]] := by decide
+
+end SeedI
+
 end Lena.C09
